@@ -70,6 +70,7 @@ type declInfo struct {
 }
 
 type parsedFile struct {
+	Opt     Opts // resolver options of the tree (custom resolver.type -> canonical names)
 	Path    string
 	Src     string // as on disk
 	Fmt     string // go/format of Src (== Src when formatting failed)
@@ -79,8 +80,8 @@ type parsedFile struct {
 	Imports []impRef
 }
 
-func parseFile(p, src string) *parsedFile {
-	pf := &parsedFile{Path: p, Src: src, Fmt: src}
+func parseFile(p, src string, opt Opts) *parsedFile {
+	pf := &parsedFile{Opt: opt, Path: p, Src: src, Fmt: src}
 	fs0 := token.NewFileSet()
 	if _, err := parser.ParseFile(fs0, p, src, parser.ParseComments|parser.AllErrors); err != nil {
 		pf.Err = err
@@ -216,7 +217,7 @@ func (pf *parsedFile) methods() []methodInfo {
 		if !ok || fd.Body == nil {
 			continue
 		}
-		recv := recvTypeName(fd)
+		recv := pf.Opt.canon(recvTypeName(fd))
 		if recv == "" {
 			continue
 		}
@@ -280,7 +281,7 @@ func (pf *parsedFile) otherDecls(orig *parsedFile0, survivors map[string]bool) [
 				}
 			}
 		case *ast.FuncDecl:
-			recv := recvTypeName(x)
+			recv := pf.Opt.canon(recvTypeName(x))
 			di.Name = x.Name.Name
 			switch {
 			case recv == "":
@@ -353,12 +354,12 @@ func onlyResolverMethods(files []*parsedFile, gen Schema) bool {
 				if x.Tok != token.TYPE || len(x.Specs) != 1 {
 					return false
 				}
-				n := x.Specs[0].(*ast.TypeSpec).Name.Name
+				n := pf.Opt.canon(x.Specs[0].(*ast.TypeSpec).Name.Name)
 				if n != "Resolver" && !(strings.HasSuffix(n, "Resolver") && objects[ucFirst(strings.TrimSuffix(n, "Resolver"))]) {
 					return false
 				}
 			case *ast.FuncDecl:
-				recv := recvTypeName(x)
+				recv := pf.Opt.canon(recvTypeName(x))
 				switch {
 				case recv == "Resolver" && objects[x.Name.Name]:
 				case fields[recv+"."+x.Name.Name]:
@@ -385,7 +386,7 @@ func Oracle(spec TreeSpec, pre *State, post map[string]string, build func() (boo
 	var preFiles []*parsedFile
 	preOrig := map[string]*parsedFile0{}
 	for _, p := range goFiles(pre.Go) {
-		pf := parseFile(p, pre.Go[p])
+		pf := parseFile(p, pre.Go[p], pre.Opts)
 		if pf.Err != nil {
 			// The tree was already invalid before this run; nothing can be extracted from it.
 			st.Masked++
@@ -413,7 +414,7 @@ func Oracle(spec TreeSpec, pre *State, post map[string]string, build func() (boo
 	postByPath := map[string]*parsedFile{}
 	invalid := 0
 	for _, p := range goFiles(post) {
-		pf := parseFile(p, post[p])
+		pf := parseFile(p, post[p], pre.Opts)
 		postFiles = append(postFiles, pf)
 		postByPath[p] = pf
 		if pf.Err == nil {
@@ -425,7 +426,7 @@ func Oracle(spec TreeSpec, pre *State, post map[string]string, build func() (boo
 		// file contains the comment terminator
 		term := ""
 		if o := preOrig[p]; o != nil {
-			for _, d := range (&parsedFile{Path: p}).otherDecls(o, survivors) {
+			for _, d := range (&parsedFile{Opt: pre.Opts, Path: p}).otherDecls(o, survivors) {
 				if strings.Contains(d.Text, "*/") {
 					term = d.Kind + " " + d.Name
 					break
@@ -603,7 +604,11 @@ func Oracle(spec TreeSpec, pre *State, post map[string]string, build func() (boo
 	}
 
 	// ---- clause 5
-	if pre.Compiles == 1 && addOnly(pre.Gen, pre.Cur) && onlyResolverMethods(preFiles, pre.Gen) {
+	// With preserve_resolver existing resolver files are documented not to follow schema
+	// changes ("IT WILL NOT BE UPDATED WITH SCHEMA CHANGES"): resolvers are then not
+	// regenerated at all and the clause only applies to a run without a schema change.
+	notRegenerated := pre.Opts.Preserve && !addOnly(pre.Cur, pre.Gen)
+	if pre.Compiles == 1 && !notRegenerated && addOnly(pre.Gen, pre.Cur) && onlyResolverMethods(preFiles, pre.Gen) {
 		st.Compiled = true
 		ok, out := build()
 		if !ok {
